@@ -19,7 +19,8 @@ def hash_data_frame(d) -> str:
         .pd.util.hash_pandas_object(d)
         .values
     ).hexdigest()
-    return f"{d.shape}_{list(d.columns)}_{hash_str}"
+    # the row hashes see the raw buffers only (int64 4607182418800017408 and float64 1.0, True and 1 hash alike): the column types are part of the key
+    return f"{d.shape}_{list(d.columns)}_{[str(t) for t in d.dtypes]}_{hash_str}"
 
 
 class EvalKey(NamedTuple):
